@@ -358,35 +358,59 @@ PROPS = {
  },
  "C11": {
   "modules": ["OsmoVerif.Props.C11"],
-  "min_theorems": 25,
+  "min_theorems": 48,
   "fingerprints": [],
   "engines": [{"name": "superfluid", "kind": "app", "n": {"quick": 20000, "thorough": 200000}, "shards": {"quick": 4, "thorough": 16}, "env": NO_EXPORT_IMPORT}],
-  "rule": "history 0 of every shard is the scripted witness of the recorded findings; then random histories: 2-3 bonded validators (+1 address that "
-          "is no validator), 3 owners, 1-2 superfluid-enabled share denoms (classic gamm pools; a concentrated pool's full-range shares in about a "
-          "third of the histories) + 1 pool that is not enabled, risk factor in {0, .05, .25, 1/3, .5, .999..., 1}, multipliers k/2, k/3, tiny, large, "
-          "integer, random; 40-160 ops: lock (1 .. 2e19 shares, durations = / > / < unbonding time, multi-coin), add-to-lock, delegate, undelegate, "
-          "unbond, undelegate-and-unbond (full / partial / too much / zero), begin-unlock (full / partial), withdraw, lockup EndBlocker, time advances "
-          "around the unbonding time, epochs preceded by 0-2 swaps / joins / exits in the real pools; wrong senders, missing lock ids, unknown validator. "
-          "An evaluation is one op with the full state compared; non-trivial = every op except `advance`/`reset`; distinct = distinct op lines",
-  "trusted_base": ["cosmos-sdk x/staking below the ledger abstraction (delegation of the intermediary account at exchange rate 1; read back from the "
-                   "real keeper on every op and compared)", "cosmos-sdk x/bank supply + supply offset (compared on every op)",
-                   "x/gamm, x/concentrated-liquidity pools: the epoch's pool readings (OSMO backing, share supply / full-range liquidity) are inputs of the model",
+  "rule": "history 0 of every shard is the scripted witness of the recorded findings; then histories of four classes (random 30%, dust 25%, slash 30%, "
+          "mixed 15%): 2-3 bonded validators (+1 address that is no validator), 3 owners, 1-2 superfluid-enabled share denoms (classic gamm pools; a "
+          "concentrated pool's full-range shares in about a third of the histories) + 1 pool that is not enabled, risk factor in {0, .05, .25, 1/3, .5, "
+          ".999..., 1}, multipliers k/2, k/3, tiny, large, integer, random; 40-160 ops: lock (1 .. 2e19 shares, durations = / > / < unbonding time, "
+          "multi-coin), add-to-lock, delegate, undelegate, unbond, undelegate-and-unbond (full / partial / too much / zero), begin-unlock (full / partial), "
+          "withdraw, lockup EndBlocker, time advances around the unbonding time, epochs preceded by 0-2 swaps / joins / exits in the real pools; wrong "
+          "senders, missing lock ids, unknown validator.  Directed macros, interleaved with the random ops (1 in 6 steps is a random op): 'dust and "
+          "recover' (1-3 locks worth 1-3 uosmo each on ONE intermediary account, refresh, a price fall by >= 4x - usually large enough that the value "
+          "of all of them rounds to 0 -, refresh [everything force-undelegated, delegation record gone], optionally a dust / large top-up, a new "
+          "delegation, an undelegation or a second refresh at the low price, price recovery by f/2, f or 2f, refresh, undelegate); 'slashed validator' "
+          "(real StakingKeeper.Slash at the current height with fractions 1/3, 1/7, .01, .5, .05, 1e-6, .1, .25 and power = current / half / 1 / "
+          "current+1, before and after delegations, then undelegate / partial undelegate-and-unbond / top-up, a refresh after a 2-10x fall [burn path], "
+          "one after a 2-10x rise [mint path], more slashes); classes slash and mixed also slash at random points (7% of the ops).  Slashes that would "
+          "burn more than 60% of a validator's tokens are skipped (a 100% slash empties locks: outside the model). "
+          "An evaluation is one op with the full state compared (incl. every validator's tokens/shares and every intermediary account's delegation "
+          "shares); non-trivial = every op except `advance`/`reset`; distinct = distinct op lines",
+  "trusted_base": ["cosmos-sdk x/staking share arithmetic is MODELLED (Validator.Tokens/DelegatorShares, Delegate/AddTokensFromDel, ValidateUnbondAmount, "
+                   "Unbond/RemoveDelShares incl. last-delegator rule, InstantUndelegate, Slash/RemoveValidatorTokens) and compared with the real keeper on every "
+                   "op; trusted below that: bank module-account transfers of the bonded pool, distribution hooks (no rewards are allocated)",
+                   "cosmos-sdk x/bank supply + supply offset (compared on every op)",
+                   "x/gamm, x/concentrated-liquidity pools: the epoch's pool readings (OSMO backing, share supply / full-range liquidity) are inputs of the model; "
+                   "so are the order in which GetAllIntermediaryAccounts iterates (by account address) and, for a slash, which concentrated-share locks the "
+                   "concentrated-liquidity module refuses to prepare for slashing (observed on a discarded branch)",
                    "message-server atomicity is reproduced by the engine with a cache context written back on success only"],
-  "assumptions": ["PARTIAL by construction: validator exchange rate != 1, slashing, jailed/unbonding validators, validator power overflow (stake kept "
-                  "below 2^63 power units), staking rewards and gauge distribution, asset removal by governance, UnbondConvertAndStake / unpool / "
+  "assumptions": ["PARTIAL by construction: jailed/unbonding validators and the staking EndBlocker's validator-set update, validator power overflow (stake kept "
+                  "below 2^63 power units), 100% slashes, staking rewards and gauge distribution, asset removal by governance, UnbondConvertAndStake / unpool / "
                   "migration / position-level concentrated wrappers are outside the model; the generator stays inside the modelled regime",
                   "the epoch is SuperfluidKeeper.AfterEpochStartBeginBlock called directly and the lockup EndBlocker is its two keeper calls (no mint / "
-                  "distribution BeginBlocker runs, so the OSMO supply is touched by superfluid only)",
-                  "drift_le_locks_between_epochs is FALSE on the code (witness theorem + scripted history, known finding F-C11-1): what is proved instead "
-                  "(drift_between_epochs_partial) is exactness after the refresh and a distance of at most 1 + (number of stake adjustments since the refresh) base units",
-                  "the module's own invariant fails on the unchanged tree (known finding F-C11-2)"],
+                  "distribution BeginBlocker runs, so the OSMO supply is touched by superfluid and by slashes only)",
+                  "the first part of Props/C11.lean (28 theorems) is over the rate-one ledger model Model/Superfluid.lean, the second part (23 theorems) over "
+                  "Model/SuperfluidStaking.lean, which is the model the driver runs; that the two agree at exchange rate one is proved for the re-created "
+                  "delegation (refresh_recreates_missing_delegation_rate_one) and otherwise only observed (the rate-one histories of the engine)",
+                  "drift_le_locks_between_epochs is FALSE on the code (witness theorem + scripted history, F24): what is proved instead "
+                  "(drift_between_epochs_partial, rate one) is exactness after the refresh and a distance of at most 1 + (number of stake adjustments since the refresh) base units",
+                  "at an exchange rate != 1 'exactly after the refresh' is FALSE on the code (witnesses refresh_exact_at_rate_ne_one_witness, "
+                  "refresh_burn_rejected_witness, stake_after_slash_witness; observations outside the property's quantifier (slashing), see DESIGN.md C11); proved instead: refresh_recreates_missing_delegation with its "
+                  "explicit bounds; the general refresh bound at rate != 1 (|stake - expected| <= 1/2 + one token per force-undelegation on the validator) is "
+                  "decided by the oracle only",
+                  "the module's own invariant fails on the unchanged tree (F25)"],
   "explanation": "state invariant (per lock: plain / delegated with exactly one staking marker and a connection to the same account / undelegating with "
                  "exactly one unstaking marker ending no later than the lock can; staking accumulation store = sum over connected locks) proved preserved by "
-                 "every entry point and so along every history (induction over the op list); from it: one marker per delegated lock and conversely, "
-                 "unstaking marker ends exactly one unbonding time after the undelegation and survives every call until matured, refresh sets every stake to "
-                 "the expected value exactly, supply + offset constant along every history, BeginUnlocking fails on delegated and undelegating locks, "
-                 "withdraw / EndBlocker cannot pay out a lock whose unstaking marker has not matured, failed calls are no-ops. Model tied to the real keepers "
-                 "by differential run of the complete state after every op.",
+                 "every entry point and so along every history (induction over the op list) - in the second part over the staking model with share "
+                 "arithmetic, validator slashes (which cut lock amounts and accumulation stores but no marker) and epochs in any account order; from it: one "
+                 "marker per delegated lock and conversely, unstaking marker ends exactly one unbonding time after the undelegation and survives every call "
+                 "and every slash until matured, BeginUnlocking fails on delegated and undelegating locks, withdraw / EndBlocker cannot pay out a lock whose "
+                 "unstaking marker has not matured, failed calls are no-ops; reported supply: mint offsets the minted amount, burn offsets the amount actually "
+                 "paid out by RemoveDelShares, so supply + offset is constant along every slash-free history and falls by exactly the burnt amount at a slash "
+                 "(reported_supply_invariant); refresh: sets every stake to the expected value exactly at rate one (first part), re-creates a missing "
+                 "delegation with floor(S*e/T) shares worth (e - T/S', e] (second part). Model tied to the real keepers by differential run of the complete "
+                 "state after every op.",
  },
  "C19": {
   # Props.C19 imports the per-module genesis models and proofs added for the export/import half:
